@@ -137,4 +137,22 @@ def probe_phi_copies():
     return None
 
 
-PROBES = {"codegen-phi-copies-before-conditional-jump": probe_phi_copies}
+def probe_imm32():
+    from vlib import native
+    workdir = os.environ.get("VERIF_TMP") or "."
+    src = ("void report(long);\nunsigned long g = 5;\nlong run_all(void) {\n  unsigned long x = g;\n"
+           "  report((long)(x + 0x90000000ul)); report((long)(x | 0x80000000ul)); report((long)(x & 0xfffffffful));\n  return 0;\n}\n")
+    for lvl in ("0", "2"):
+        try:
+            exe = native.build_path_a(src, lvl, workdir, "probei" + lvl)
+        except Exception as e:
+            return "build at -O%s raised %s: %s" % (lvl, type(e).__name__, str(e)[:100])
+        kind, out, rc = native.run_exe(exe)
+        os.unlink(exe)
+        if kind != "ok" or out.split() != ["2415919109", "2147483653", "5"]:
+            return "-O%s prints %r (%s), a conforming compiler prints 2415919109 2147483653 5" % (lvl, out.split(), kind)
+    return None
+
+
+PROBES = {"codegen-phi-copies-before-conditional-jump": probe_phi_copies,
+          "x86-unsigned-imm32-sign-extended": probe_imm32}
